@@ -63,6 +63,15 @@ Theorem C07_route_ok_sound_plain : forall n orig routed init final g d,
 Proof. exact route_ok_sound_plain. Qed.
 Print Assumptions C07_route_ok_sound_plain.
 
+(* the swap map of an accepted certificate is a permutation of ALL placed physical qubits, used by the circuit or not *)
+Theorem C07_route_ok_final_perm : forall n orig routed init final g d,
+  route_ok n orig routed init final g d = true ->
+  length init = n /\
+  (forall p, p < n -> nth p final 0 < n) /\
+  (forall p q, p < n -> q < n -> nth p final 0 = nth q final 0 -> p = q).
+Proof. exact route_ok_final_perm. Qed.
+Print Assumptions C07_route_ok_final_perm.
+
 (* ---- meaning on states (any ring with the laws, any number of qubits, any matrices for the operations) ---- *)
 (* the emission model: emitted operations read through the final mapping = the logical stream on the initial reading *)
 Theorem C07_emit_sem : forall (K : Type) (O : Ops K) (L : Laws O) (mat_of_id : nat -> matrix (K:=K)) n ls m (phi : tensor (K:=K)),
@@ -166,6 +175,12 @@ Example C07_route_ok_rejects :
   /\ route_ok 3 [mkO 7 [0; 2] []] [RSwap 0 1; ROp (mkO 7 [1; 2] [])] [0; 1; 2] [0; 1; 2] [(0, 1); (1, 2)] false = false
   /\ route_ok 2 [mkO 1 [0] []; mkO 2 [0] []] [ROp (mkO 2 [0] []); ROp (mkO 1 [0] [])] [0; 1] [0; 1] [(0, 1)] false = false.
 Proof. repeat split. Qed.
+(* an idle placement (logical 1 is not used by the circuit) displaced by the inserted swap: the full map is accepted, a map
+   that leaves the displaced idle placement where it was (so that two placed qubits share an image) is rejected *)
+Example C07_route_ok_idle_placement :
+  route_ok 3 [mkO 7 [0; 2] []] [RSwap 0 1; ROp (mkO 7 [1; 2] [])] [0; 1; 2] [1; 0; 2] [(0, 1); (1, 2)] false = true
+  /\ route_ok 3 [mkO 7 [0; 2] []] [RSwap 0 1; ROp (mkO 7 [1; 2] [])] [0; 1; 2] [1; 1; 2] [(0, 1); (1, 2)] false = false.
+Proof. split; reflexivity. Qed.
 (* the directed-graph block is recognised (one-way edge 0 -> 1), with an operation on another qubit interleaved *)
 Example C07_route_ok_directed :
   route_ok 3 [mkO 7 [1; 0] []; mkO 5 [2] []]
